@@ -1,1 +1,12 @@
 import Spydr.Names.Props.C17
+#print axioms Spydr.Names.makeValid_legal
+#print axioms Spydr.Names.makeValid_fresh
+#print axioms Spydr.Names.conflictsFix_finished
+#print axioms Spydr.Names.makeValid_fresh_bounded
+#print axioms Spydr.Names.rename_recorded
+#print axioms Spydr.Names.assign_all_distinct
+#print axioms Spydr.Names.assign_all_scopeOk
+#print axioms Spydr.Names.pinned_violates_scopeOk
+#print axioms Spydr.Names.pinned_violates_legal_dash
+#print axioms Spydr.Names.pinned_violates_legal_length
+#print axioms Spydr.Names.pinned_violates_legal_suffix
